@@ -60,6 +60,10 @@ type decideSpec struct {
 	loopOver string
 	// … and not the first such loop but the one after this many of them
 	loopSkip int
+	// `var x T` declarations whose zero value is read on some path: name -> Lean term of the zero value
+	zeros map[string]string
+	// printed `v, ok := m[k]` statement that is followed by `if !ok { … return … }` -> Lean Option term looked up
+	lookups map[string]string
 }
 
 type decideTr struct {
@@ -334,6 +338,23 @@ func (t *decideTr) stmts(ss []ast.Stmt, fall string) (string, error) {
 		}
 		return "(" + leanStr(name) + " :: " + cont + ")", nil
 	}
+	if term, ok := t.spec.lookups[t.text(s)]; ok && len(rest) > 0 {
+		as, isAs := s.(*ast.AssignStmt)
+		chk, isIf := rest[0].(*ast.IfStmt)
+		if isAs && isIf && len(as.Lhs) == 2 && chk.Init == nil && chk.Else == nil && t.text(chk.Cond) == "!"+t.text(as.Lhs[1]) {
+			missing, err := t.stmts(chk.Body.List, "")
+			if err != nil {
+				return "", err
+			}
+			v := as.Lhs[0].(*ast.Ident)
+			t.bound[v.Name] = true
+			cont, err := t.stmts(rest[1:], fall)
+			if err != nil {
+				return "", err
+			}
+			return fmt.Sprintf("(match %s with\n  | none => %s\n  | some %s => %s)", term, missing, leanIdent(v.Name), cont), nil
+		}
+	}
 	if b, ok := t.spec.okDefs[t.text(s)]; ok {
 		as := s.(*ast.AssignStmt)
 		okv := as.Lhs[1].(*ast.Ident)
@@ -346,7 +367,7 @@ func (t *decideTr) stmts(ss []ast.Stmt, fall string) (string, error) {
 	}
 	switch x := s.(type) {
 	case *ast.BranchStmt:
-		if x.Tok == token.CONTINUE && x.Label == nil && t.spec.loopBody {
+		if x.Tok == token.CONTINUE && x.Label == nil && (t.spec.loopBody || fall == "(loop rest)") {
 			return fall, nil
 		}
 	case *ast.ExprStmt:
@@ -504,6 +525,14 @@ func (t *decideTr) stmts(ss []ast.Stmt, fall string) (string, error) {
 		// var x T  (assigned on every path before it is read: the assignments are what is translated)
 		if gd, ok := x.Decl.(*ast.GenDecl); ok && gd.Tok == token.VAR && len(gd.Specs) == 1 {
 			if vs, ok := gd.Specs[0].(*ast.ValueSpec); ok && len(vs.Values) == 0 {
+				if z, ok := t.spec.zeros[vs.Names[0].Name]; ok && len(vs.Names) == 1 {
+					t.bound[vs.Names[0].Name] = true
+					cont, err := t.stmts(rest, fall)
+					if err != nil {
+						return "", err
+					}
+					return fmt.Sprintf("(let %s := %s\n  %s)", leanIdent(vs.Names[0].Name), z, cont), nil
+				}
 				return t.stmts(rest, fall)
 			}
 		}
@@ -653,6 +682,28 @@ func translateDecide(src string, spec *decideSpec) (string, error) {
 }
 
 var decideSpecs = []*decideSpec{
+	{
+		file: "internal/template_generator.go", recv: "TemplateGenerator", fn: "getTemplate", lean: "getTemplate",
+		params: "{T S : Type} (protocols : List String) (hasPrefix : String → Bool) (requireSchemaExists : Bool) (fetchTemplate : Option T) (fetchSchema : Option (Option S)) (builtinTemplate : Option T) (builtinSchema : Option (Option S))",
+		result: "Except String (T × Option S)",
+		atoms: map[string]string{
+			`[]string{"file://", "https://", "http://"}`: "protocols",
+			"strings.HasPrefix(g.templateName, protocol)": "hasPrefix v_protocol",
+			"g.requireSchemaExists":                       "requireSchemaExists",
+		},
+		calls: map[string]string{"remoteTemplate.Template": "fetchTemplate", "remoteTemplate.Schema": "fetchSchema", "gojsonschema.NewSchema": "builtinSchema"},
+		errs: map[string]string{"\"downloading template: %w\"": "\"template\"", "\"downloading schema: %w\"": "\"schema\"",
+			"\"template '%s' does not exist\"": "\"unknown-template\"", "\"generating schema: %w\"": "\"builtin-schema\""},
+		zeros:   map[string]string{"schema": "(none : Option S)"},
+		lookups: map[string]string{"templateString, styleExists := styleTemplates[g.templateName]": "builtinTemplate"},
+		ignore:  []string{"log"},
+		effects: []string{
+			"ctx = log.WithContext(ctx)", "var err error", "var remoteTemplate *RemoteTemplate", "var styleExists bool",
+			`cacheKey := g.templateName + "\n" + g.templateSchema`,
+			"if cachedRemoteTemplate, ok := g.remoteTemplateCache[cacheKey]; !ok { remoteTemplate = NewRemoteTemplate(g.templateName, g.templateSchema) g.remoteTemplateCache[cacheKey] = remoteTemplate } else { remoteTemplate = cachedRemoteTemplate }",
+		},
+		dropArgs: []string{"ctx", "gojsonschema.NewStringLoader(jsonSchemas[g.templateName])"},
+	},
 	{
 		file: "template/template_data.go", recv: "TemplateData", fn: "VerifyJSONSchema", lean: "verifyJSONSchema",
 		params: "{R : Type} (validate : Option R) (isValid : R → Bool)",
